@@ -57,7 +57,9 @@ Record st := mkSt {
   spend : list (sid * peer);           (* open_substream requests the service has not answered *)
   tasks : list task;
   ntask : N;
-  lastt : peer -> option N             (* most recent Connection task of the peer *)
+  lastt : peer -> option N;            (* most recent Connection task of the peer *)
+  timers : list peer;                  (* armed 5 s negotiation timers, oldest first *)
+  narm : N                             (* timers armed so far *)
 }.
 
 Definition upd {A} (f : peer -> A) (p : peer) (v : A) : peer -> A :=
@@ -65,34 +67,40 @@ Definition upd {A} (f : peer -> A) (p : peer) (v : A) : peer -> A :=
 
 Definition init : st :=
   mkSt (fun _ => None) [] (fun _ => false) (fun _ => false) (fun _ => false) (fun _ => false)
-       (fun _ => false) (fun _ => false) 0 [] [] 0 (fun _ => None).
+       (fun _ => false) (fun _ => false) 0 [] [] 0 (fun _ => None) [] 0.
 
 (* ---- field setters ---- *)
 Definition set_ps (s : st) (p : peer) (v : option pstate) : st :=
-  mkSt (upd (ps s) p v) (pend s) (hsI s) (hsO s) (hopen s) (hval s) (conn s) (dead s) (nsid s) (spend s) (tasks s) (ntask s) (lastt s).
+  mkSt (upd (ps s) p v) (pend s) (hsI s) (hsO s) (hopen s) (hval s) (conn s) (dead s) (nsid s) (spend s) (tasks s) (ntask s) (lastt s) (timers s) (narm s).
 Definition set_pend (s : st) (l : list (sid * peer)) : st :=
-  mkSt (ps s) l (hsI s) (hsO s) (hopen s) (hval s) (conn s) (dead s) (nsid s) (spend s) (tasks s) (ntask s) (lastt s).
+  mkSt (ps s) l (hsI s) (hsO s) (hopen s) (hval s) (conn s) (dead s) (nsid s) (spend s) (tasks s) (ntask s) (lastt s) (timers s) (narm s).
 Definition set_hsI (s : st) (p : peer) (b : bool) : st :=
-  mkSt (ps s) (pend s) (upd (hsI s) p b) (hsO s) (hopen s) (hval s) (conn s) (dead s) (nsid s) (spend s) (tasks s) (ntask s) (lastt s).
+  mkSt (ps s) (pend s) (upd (hsI s) p b) (hsO s) (hopen s) (hval s) (conn s) (dead s) (nsid s) (spend s) (tasks s) (ntask s) (lastt s) (timers s) (narm s).
 Definition set_hsO (s : st) (p : peer) (b : bool) : st :=
-  mkSt (ps s) (pend s) (hsI s) (upd (hsO s) p b) (hopen s) (hval s) (conn s) (dead s) (nsid s) (spend s) (tasks s) (ntask s) (lastt s).
+  mkSt (ps s) (pend s) (hsI s) (upd (hsO s) p b) (hopen s) (hval s) (conn s) (dead s) (nsid s) (spend s) (tasks s) (ntask s) (lastt s) (timers s) (narm s).
 Definition set_hopen (s : st) (p : peer) (b : bool) : st :=
-  mkSt (ps s) (pend s) (hsI s) (hsO s) (upd (hopen s) p b) (hval s) (conn s) (dead s) (nsid s) (spend s) (tasks s) (ntask s) (lastt s).
+  mkSt (ps s) (pend s) (hsI s) (hsO s) (upd (hopen s) p b) (hval s) (conn s) (dead s) (nsid s) (spend s) (tasks s) (ntask s) (lastt s) (timers s) (narm s).
 Definition set_hval (s : st) (p : peer) (b : bool) : st :=
-  mkSt (ps s) (pend s) (hsI s) (hsO s) (hopen s) (upd (hval s) p b) (conn s) (dead s) (nsid s) (spend s) (tasks s) (ntask s) (lastt s).
+  mkSt (ps s) (pend s) (hsI s) (hsO s) (hopen s) (upd (hval s) p b) (conn s) (dead s) (nsid s) (spend s) (tasks s) (ntask s) (lastt s) (timers s) (narm s).
 Definition set_conn (s : st) (p : peer) (b : bool) : st :=
-  mkSt (ps s) (pend s) (hsI s) (hsO s) (hopen s) (hval s) (upd (conn s) p b) (dead s) (nsid s) (spend s) (tasks s) (ntask s) (lastt s).
+  mkSt (ps s) (pend s) (hsI s) (hsO s) (hopen s) (hval s) (upd (conn s) p b) (dead s) (nsid s) (spend s) (tasks s) (ntask s) (lastt s) (timers s) (narm s).
 Definition set_dead (s : st) (p : peer) (b : bool) : st :=
-  mkSt (ps s) (pend s) (hsI s) (hsO s) (hopen s) (hval s) (conn s) (upd (dead s) p b) (nsid s) (spend s) (tasks s) (ntask s) (lastt s).
+  mkSt (ps s) (pend s) (hsI s) (hsO s) (hopen s) (hval s) (conn s) (upd (dead s) p b) (nsid s) (spend s) (tasks s) (ntask s) (lastt s) (timers s) (narm s).
 Definition set_nsid (s : st) (n : N) : st :=
-  mkSt (ps s) (pend s) (hsI s) (hsO s) (hopen s) (hval s) (conn s) (dead s) n (spend s) (tasks s) (ntask s) (lastt s).
+  mkSt (ps s) (pend s) (hsI s) (hsO s) (hopen s) (hval s) (conn s) (dead s) n (spend s) (tasks s) (ntask s) (lastt s) (timers s) (narm s).
 Definition set_spend (s : st) (l : list (sid * peer)) : st :=
-  mkSt (ps s) (pend s) (hsI s) (hsO s) (hopen s) (hval s) (conn s) (dead s) (nsid s) l (tasks s) (ntask s) (lastt s).
+  mkSt (ps s) (pend s) (hsI s) (hsO s) (hopen s) (hval s) (conn s) (dead s) (nsid s) l (tasks s) (ntask s) (lastt s) (timers s) (narm s).
 Definition set_tasks (s : st) (l : list task) : st :=
-  mkSt (ps s) (pend s) (hsI s) (hsO s) (hopen s) (hval s) (conn s) (dead s) (nsid s) (spend s) l (ntask s) (lastt s).
+  mkSt (ps s) (pend s) (hsI s) (hsO s) (hopen s) (hval s) (conn s) (dead s) (nsid s) (spend s) l (ntask s) (lastt s) (timers s) (narm s).
+Definition set_timers (s : st) (l : list peer) : st :=
+  mkSt (ps s) (pend s) (hsI s) (hsO s) (hopen s) (hval s) (conn s) (dead s) (nsid s) (spend s) (tasks s) (ntask s) (lastt s) l (narm s).
+(* on_handshake_event pushes a 5 s timer for the peer whenever it returns without the stream open *)
+Definition arm (s : st) (p : peer) : st :=
+  mkSt (ps s) (pend s) (hsI s) (hsO s) (hopen s) (hval s) (conn s) (dead s) (nsid s) (spend s) (tasks s) (ntask s) (lastt s)
+       (timers s ++ [p]) (narm s + 1).
 Definition spawn_task (s : st) (p : peer) : st :=
   mkSt (ps s) (pend s) (hsI s) (hsO s) (hopen s) (hval s) (conn s) (dead s) (nsid s) (spend s)
-       (tasks s ++ [mkTask (ntask s) p None false]) (ntask s + 1) (upd (lastt s) p (Some (ntask s))).
+       (tasks s ++ [mkTask (ntask s) p None false]) (ntask s + 1) (upd (lastt s) p (Some (ntask s))) (timers s) (narm s).
 
 (* ---- pending_outbound (HashMap<SubstreamId, PeerId>) ---- *)
 Definition pend_remove (x : sid) (l : list (sid * peer)) : list (sid * peer) :=
@@ -320,7 +328,7 @@ Definition hs_finish (s : st) (p : peer) : res :=
   | Some (Validating d OOpen IOpen) =>
       let k := ntask s in
       ok_ev (set_ps (spawn_task s p) p (Some (Open k))) (UOpened p d)
-  | _ => ok s
+  | _ => ok (arm s p)
   end.
 
 Definition on_hs_out_ok (s : st) (p : peer) : res :=
@@ -343,7 +351,7 @@ Definition on_hs_in_ok (c : cfg) (s : st) (p : peer) : res :=
       | Validating d o IReading =>
           if negb (o_closed o) && auto_accept c
           then ok (set_ps (set_hsI s p true) p (Some (Validating d o ISending)))
-          else ok_ev (set_ps s p (Some (Validating d o IValidating))) (UValidate p)
+          else ok_ev (arm (set_ps s p (Some (Validating d o IValidating))) p) (UValidate p)
       | Validating d o ISending => hs_finish (set_ps s p (Some (Validating d o IOpen))) p
       | _ => None
       end
@@ -357,11 +365,19 @@ Definition on_hs_err (s : st) (p : peer) : res :=
       match stt with
       | Validating _ o _ =>
           let s := set_ps s p (Some (Closed (pending_open o))) in
-          if o_closed o then ok s else ok_ev s (UFail p E_REJECTED)
+          if o_closed o then ok (arm s p) else ok_ev s (UFail p E_REJECTED)
       | _ => None
       end
   end.
 
+Fixpoint remove_first (p : peer) (l : list peer) : list peer :=
+  match l with
+  | [] => []
+  | q :: t => if q =? p then t else q :: remove_first p t
+  end.
+
+(* an expired timer: "peer didn't answer": only an attempt whose outbound half is open and whose
+   inbound substream never came is cancelled; everything else ignores the timer *)
 Definition on_timer (s : st) (p : peer) : res :=
   match ps s p with
   | Some (Validating _ OOpen IClosed) =>
@@ -456,7 +472,7 @@ Definition main_handler (c : cfg) (s : st) (o : op) : res :=
   | HsIn p b => if hsI s p then (if b then on_hs_in_ok c s p else on_hs_err s p) else ok s
   | HsOut p b => if hsO s p then (if b then on_hs_out_ok s p else on_hs_err s p) else ok s
   | Validate p a => if hval s p then on_validation (set_hval s p false) p a else ok s
-  | Timer p => on_timer s p
+  | Timer p => if existsb (N.eqb p) (timers s) then on_timer (set_timers s (remove_first p (timers s))) p else ok s
   | CmdOpen p => if hopen s p then ok s else on_open c s p
   | CmdClose p => if hopen s p then on_close s p else ok s
   | CmdForce p => Some (s, [], svc_force s p)
